@@ -134,6 +134,35 @@ async fn ws_echo(rqctx: RequestContext<vmon::srv::C>, upgraded: WebsocketConnect
     Ok(())
 }
 
+/// deterministic bytes for (uid, n)
+fn burst_payload(uid: u64, n: usize) -> Vec<u8> {
+    let mut x = uid.wrapping_mul(0x9E37_79B9_7F4A_7C15) | 1;
+    (0..n)
+        .map(|_| {
+            x = x.wrapping_mul(6364136223846793005).wrapping_add(1442695040888963407);
+            (x >> 33) as u8
+        })
+        .collect()
+}
+
+/// the handler speaks first and last: it writes x-vmon-size bytes, flushes, and ends
+#[dropshot::channel { protocol = WEBSOCKETS, path = "/ws-burst" }]
+async fn ws_burst(rqctx: RequestContext<vmon::srv::C>, upgraded: WebsocketConnection) -> WebsocketChannelResult {
+    use tokio::io::AsyncWriteExt;
+    let uid = vmon::api::uid_of(&rqctx);
+    let n: usize = rqctx.request.headers().get("x-vmon-size").and_then(|v| v.to_str().ok()).and_then(|s| s.parse().ok()).unwrap_or(0);
+    rqctx.context().log.push("CH_ENTER", uid, 0, "burst");
+    let data = burst_payload(uid, n);
+    let mut io = upgraded.into_inner();
+    for chunk in data.chunks(48 * 1024) {
+        io.write_all(chunk).await?;
+    }
+    io.flush().await?;
+    rqctx.context().log.push("CH_WROTE", uid, n as i64, "");
+    io.shutdown().await?;
+    Ok(())
+}
+
 impl TlsClient {
     fn raw_write(&mut self, data: &[u8]) -> Result<(), String> {
         let mut tls = rustls::Stream::new(&mut self.conn, &mut self.sock);
@@ -177,6 +206,7 @@ fn start_tls(log: &EvLog, mode: HandlerTaskMode) -> Result<TlsServer, String> {
     let ctx = Ctx::new(log.clone());
     let mut api = echo_api(&[]);
     api.register(ws_echo).map_err(|e| e.to_string())?;
+    api.register(ws_burst).map_err(|e| e.to_string())?;
     let b = ServerBuilder::new(api, ctx, discard_logger()).config(config).tls(Some(tls));
     let server = rt.block_on(async move { b.start() }).map_err(|e| format!("start: {e}"))?;
     let addr = server.local_addr();
@@ -274,11 +304,27 @@ fn run_c18(seed: u64, rounds: usize) -> Report {
                             json!({"seed": seed, "round": r, "mode": mode_tag, "stall": kind, "held_connections": k,
                                    "probe_while_held": e1, "probe_after_release": "200"}),
                         ),
-                        Err(e2) => rep.inconclusive(&format!(
-                            "tls probe failed with and without stalled peers: {} / {}",
-                            e1.chars().take(40).collect::<String>(),
-                            e2.chars().take(40).collect::<String>()
-                        )),
+                        Err(e2) => match patient_health(srv.addr, &cfg) {
+                            Ok(()) => rep.inconclusive(&format!(
+                                "tls probe failed with and without stalled peers, then was served: {} / {}",
+                                e1.chars().take(40).collect::<String>(),
+                                e2.chars().take(40).collect::<String>()
+                            )),
+                            Err(e3) => {
+                                // nothing hostile is connected any more and the server still
+                                // does not complete a handshake, though its port accepts
+                                if TcpStream::connect_timeout(&srv.addr, Duration::from_secs(5)).is_ok() {
+                                    rep.violate(
+                                        "C18:tls:server-stopped-serving-after-broken-handshakes",
+                                        json!({"seed": seed, "round": r, "mode": mode_tag, "last_stall": kind, "held_connections": k,
+                                               "probe_errors": [e1, e2, e3], "tcp_connect_still_accepted": true}),
+                                    );
+                                } else {
+                                    rep.inconclusive("tls server unreachable even at TCP level");
+                                }
+                                break;
+                            }
+                        },
                     }
                 }
             }
@@ -393,6 +439,10 @@ fn run_c20(seed: u64, rounds: usize) -> Report {
         let mode_tag = if matches!(mode, HandlerTaskMode::Detached) { "det" } else { "cod" };
         for r in 0..rounds {
             let mut rng = Rng::derive(seed, "c20-tls", if mode_tag == "det" { 0 } else { 1 }, r as u64);
+            if rng.chance(1, 4) {
+                burst_round(&mut rep, &mut rng, srv.addr, &cfg, &log, seed, r, mode_tag);
+                continue;
+            }
             let case = *rng.pick(&["complete", "complete", "complete", "no-key", "version-8"]);
             let uid = next_uid();
             let mut req = Req::new("GET", "/ws").uid(uid).header("connection", "Upgrade").header("upgrade", "websocket");
@@ -488,6 +538,83 @@ fn run_c20(seed: u64, rounds: usize) -> Report {
 }
 
 /// inode of a LISTEN socket on 127.0.0.1:<port> that is open in this very process
+/// server-speaks-first burst over TLS: everything the handler wrote and flushed before
+/// it ended must arrive, however late the client starts reading
+#[allow(clippy::too_many_arguments)]
+fn burst_round(rep: &mut Report, rng: &mut Rng, addr: SocketAddr, cfg: &Arc<rustls::ClientConfig>, log: &EvLog, seed: u64, r: usize, mode_tag: &str) {
+    let uid = next_uid();
+    let n = *rng.pick(&[1usize, 1000, 16_384, 65_536, 200_000, 1 << 20, 4 << 20]);
+    let delay_ms = *rng.pick(&[0u64, 5, 50, 200]);
+    let req = Req::new("GET", "/ws-burst")
+        .uid(uid)
+        .header("connection", "Upgrade")
+        .header("upgrade", "websocket")
+        .header("sec-websocket-version", "13")
+        .header("sec-websocket-key", "dGhlIHNhbXBsZSBub25jZQ==")
+        .header("x-vmon-size", &n.to_string());
+    let Ok((mut c, hello)) = TlsClient::connect(addr, cfg) else {
+        rep.inconclusive("connect");
+        return;
+    };
+    if c.sock.write_all(&hello).is_err() {
+        rep.inconclusive("hello write");
+        return;
+    }
+    rep.eval(format!("{mode_tag}|burst|n{n}|delay{delay_ms}"));
+    let resp = match c.request(&req.encode(), Duration::from_secs(20)) {
+        Ok(r) => r,
+        Err(e) => {
+            rep.inconclusive(&format!("no handshake response: {}", e.chars().take(40).collect::<String>()));
+            return;
+        }
+    };
+    let wit = |extra: serde_json::Value| json!({"seed": seed, "round": r, "mode": mode_tag, "transport": "tls", "case": "server-burst",
+        "burst_len": n, "client_read_delay_ms": delay_ms, "status": resp.status, "detail": extra});
+    if resp.status != 101 {
+        rep.violate("C20:complete-handshake-refused:tls", wit(json!({"body": String::from_utf8_lossy(&resp.body)})));
+        return;
+    }
+    // the client does not read for a while: the handler's writes meet back-pressure
+    std::thread::sleep(Duration::from_millis(delay_ms));
+    c.sock.set_read_timeout(Some(Duration::from_secs(20))).ok();
+    let mut got = c.pending.clone();
+    let mut tmp = [0u8; 65536];
+    let mut ended = "eof";
+    {
+        let mut tls = rustls::Stream::new(&mut c.conn, &mut c.sock);
+        loop {
+            match tls.read(&mut tmp) {
+                Ok(0) => break,
+                Ok(k) => got.extend_from_slice(&tmp[..k]),
+                Err(e) if e.kind() == std::io::ErrorKind::WouldBlock || e.kind() == std::io::ErrorKind::TimedOut => {
+                    ended = "timeout";
+                    break;
+                }
+                // a close without close_notify is still the end of the stream
+                Err(_) => break,
+            }
+            if got.len() >= n {
+                // everything is here; what follows can only be the close
+                break;
+            }
+        }
+    }
+    let want = burst_payload(uid, n);
+    let wrote = log.snapshot().iter().any(|e| e.kind == "CH_WROTE" && e.uid == uid);
+    if got.len() >= n && got[..n] == want[..] {
+        rep.count("tls_burst_bytes_received", n as u64);
+    } else if ended == "timeout" && !wrote {
+        rep.inconclusive("burst handler had not finished writing at the read watchdog");
+    } else if got.len() < n {
+        rep.violate(
+            "C20:post-upgrade-bytes-lost:tls:server-burst",
+            wit(json!({"received": got.len(), "missing": n - got.len(), "handler_finished_writing_and_flushed": wrote, "read_ended_by": ended})),
+        );
+    } else {
+        rep.violate("C20:post-upgrade-bytes-altered:tls:server-burst", wit(json!({"received": got.len()})));
+    }
+}
+
 fn own_listen_inode(port: u16) -> Option<u64> {
     let tcp = std::fs::read_to_string("/proc/self/net/tcp").ok()?;
     let want = format!(":{:04X}", port);
@@ -624,6 +751,186 @@ fn run_c17(seed: u64, rounds: usize) -> Report {
     rep
 }
 
+fn rst_close(sock: TcpStream) {
+    use std::os::fd::AsRawFd;
+    let l = libc::linger { l_onoff: 1, l_linger: 0 };
+    unsafe {
+        libc::setsockopt(sock.as_raw_fd(), libc::SOL_SOCKET, libc::SO_LINGER, &l as *const _ as *const libc::c_void, std::mem::size_of::<libc::linger>() as u32);
+    }
+    drop(sock);
+}
+
+/// a patient third opinion once a probe has failed twice: everything hostile is closed,
+/// wait, then probe up to three times with a long watchdog
+fn patient_health(addr: SocketAddr, cfg: &Arc<rustls::ClientConfig>) -> Result<(), String> {
+    let mut last = String::new();
+    for _ in 0..3 {
+        std::thread::sleep(Duration::from_secs(1));
+        match health(addr, cfg, Duration::from_secs(30)) {
+            Ok(_) => return Ok(()),
+            Err(e) => last = e,
+        }
+    }
+    Err(last)
+}
+
+/// C16 over TLS: clients that go away at every stage of a TLS connection's life.
+fn run_c16(seed: u64, rounds: usize) -> Report {
+    let mut rep = Report::new(
+        "C16",
+        "E2-tls-disconnect",
+        "an HTTPS server in both task modes; per round one client S stays connected with a slow request in flight while 1-4 other clients          quit (FIN or RST) at a chosen stage: after TCP connect, after a prefix of the ClientHello, after the whole ClientHello, after the          completed handshake, after part of a request, after a whole request (handler running or about to).  Oracle: S receives its complete          200 answer with its own uid; a fresh TLS client is served afterwards (twice failing => patient third probe; failing that too while          the port still accepts TCP connections is a violation: the server stopped serving others); in detached mode every handler that was          entered for a quitter's request completed exactly once (event log, after close); class = (stage, how, #quitters, mode)",
+    );
+    let cfg = client_config();
+    for mode in [HandlerTaskMode::Detached, HandlerTaskMode::CancelOnDisconnect] {
+        let log = EvLog::new();
+        let mut srv = match start_tls(&log, mode) {
+            Ok(s) => s,
+            Err(e) => {
+                rep.inconclusive(&format!("tls server start: {e}"));
+                continue;
+            }
+        };
+        let mode_tag = if matches!(mode, HandlerTaskMode::Detached) { "det" } else { "cod" };
+        if let Err(e) = health(srv.addr, &cfg, Duration::from_secs(20)) {
+            rep.inconclusive(&format!("tls client cannot talk to an idle server: {e}"));
+            continue;
+        }
+        let mut quitter_uids: Vec<u64> = vec![];
+        let mut dead = false;
+        for r in 0..rounds {
+            let mut rng = Rng::derive(seed, "c16-tls", if mode_tag == "det" { 0 } else { 1 }, r as u64);
+            let stage = *rng.pick(&["tcp-only", "hello-prefix", "hello-only", "handshake-done", "partial-request", "request-sent"]);
+            let how = *rng.pick(&["fin", "rst"]);
+            let k = 1 + rng.usize(4);
+            let wit = |extra: serde_json::Value| json!({"seed": seed, "round": r, "mode": mode_tag, "transport": "tls", "stage": stage, "how": how, "quitters": k, "detail": extra});
+            // the client that stays: handshake + a slow request, answer read later
+            let suid = next_uid();
+            let stayer = (|| -> Result<TlsClient, String> {
+                let (mut c, hello) = TlsClient::connect(srv.addr, &cfg)?;
+                c.sock.write_all(&hello).map_err(|e| e.to_string())?;
+                c.sock.set_read_timeout(Some(Duration::from_secs(20))).ok();
+                c.raw_write(&Req::new("GET", "/health").uid(suid).header("x-vmon-sleep-us", &(20_000 + rng.below(60_000)).to_string()).encode())?;
+                Ok(c)
+            })();
+            let mut stayer = match stayer {
+                Ok(c) => c,
+                Err(e) => {
+                    rep.inconclusive(&format!("stayer setup: {}", e.chars().take(40).collect::<String>()));
+                    continue;
+                }
+            };
+            for _ in 0..k {
+                let Ok((mut c, hello)) = TlsClient::connect(srv.addr, &cfg) else {
+                    rep.inconclusive("connect");
+                    continue;
+                };
+                c.sock.set_read_timeout(Some(Duration::from_secs(10))).ok();
+                c.sock.set_write_timeout(Some(Duration::from_secs(10))).ok();
+                let quid = next_uid();
+                let req = Req::new("GET", "/health").uid(quid).header("x-vmon-sleep-us", &rng.below(30_000).to_string()).encode();
+                let _ = match stage {
+                    "tcp-only" => Ok(()),
+                    "hello-prefix" => c.sock.write_all(&hello[..1 + rng.usize(hello.len() - 1)]).map_err(|e| e.to_string()),
+                    "hello-only" => c.sock.write_all(&hello).map_err(|e| e.to_string()),
+                    _ => {
+                        let mut r = c.sock.write_all(&hello).map_err(|e| e.to_string());
+                        while r.is_ok() && c.conn.is_handshaking() {
+                            r = c.conn.complete_io(&mut c.sock).map(|_| ()).map_err(|e| e.to_string());
+                        }
+                        match stage {
+                            "partial-request" => r.and_then(|_| c.raw_write(&req[..1 + rng.usize(req.len() - 1)])),
+                            "request-sent" => {
+                                quitter_uids.push(quid);
+                                r.and_then(|_| c.raw_write(&req))
+                            }
+                            _ => r,
+                        }
+                    }
+                };
+                std::thread::sleep(Duration::from_micros(rng.below(4000)));
+                if how == "rst" {
+                    rst_close(c.sock);
+                } else {
+                    let _ = c.sock.shutdown(std::net::Shutdown::Both);
+                    drop(c);
+                }
+            }
+            rep.eval(format!("{stage}|{how}|k{k}|{mode_tag}"));
+            // the stayer's answer
+            let mut buf = stayer.pending.clone();
+            let mut tmp = [0u8; 8192];
+            let sres: Result<vmon::client::Resp, String> = loop {
+                if let Ok((r, _)) = parse_one(&buf, false) {
+                    break Ok(r);
+                }
+                let mut tls = rustls::Stream::new(&mut stayer.conn, &mut stayer.sock);
+                match tls.read(&mut tmp) {
+                    Ok(0) => break Err(format!("eof after {} bytes", buf.len())),
+                    Ok(n) => buf.extend_from_slice(&tmp[..n]),
+                    Err(e) => break Err(format!("tls read: {e}")),
+                }
+            };
+            let s_ok = matches!(&sres, Ok(r) if r.status == 200 && r.json().map(|j| j["meta"]["uid"].as_u64() == Some(suid)).unwrap_or(false));
+            if s_ok {
+                rep.count("connected_clients_answered_while_peers_quit", 1);
+            }
+            // a fresh client afterwards
+            let fresh = health(srv.addr, &cfg, Duration::from_secs(12)).or_else(|_| health(srv.addr, &cfg, Duration::from_secs(12)));
+            match (&fresh, s_ok) {
+                (Ok(_), true) => {
+                    if rep.want_sample() {
+                        rep.sample(wit(json!({"stayer": "200", "fresh_client": "200"})));
+                    }
+                }
+                (Ok(_), false) => rep.violate(
+                    format!("C16:tls:connected-client-not-answered-while-peers-quit:{stage}"),
+                    wit(json!({"stayer_result": sres.as_ref().map(|r| r.status).map_err(|e| e.clone()), "fresh_client": "200"})),
+                ),
+                (Err(e1), _) => match patient_health(srv.addr, &cfg) {
+                    Ok(()) => rep.inconclusive("fresh tls client failed twice, then was served (load)"),
+                    Err(e2) => {
+                        let tcp = TcpStream::connect_timeout(&srv.addr, Duration::from_secs(5)).is_ok();
+                        if tcp {
+                            rep.violate(
+                                format!("C16:tls:server-stopped-serving-after-client-quit:{stage}"),
+                                wit(json!({"probe_errors": [e1, &e2], "tcp_connect_still_accepted": true, "stayer_answered": s_ok})),
+                            );
+                        } else {
+                            rep.inconclusive("tls server unreachable even at TCP level");
+                        }
+                        dead = true;
+                    }
+                },
+            }
+            if dead {
+                break;
+            }
+        }
+        // close, then the detached-mode history rule
+        if let Some(server) = srv.server.take() {
+            let _ = srv.rt.block_on(async { tokio::time::timeout(Duration::from_secs(30), server.close()).await });
+        }
+        if mode_tag == "det" && !dead {
+            let evs = log.snapshot();
+            for uid in &quitter_uids {
+                let enter = evs.iter().filter(|e| e.kind == "H_ENTER" && e.uid == *uid).count();
+                let done = evs.iter().filter(|e| e.kind == "H_DONE" && e.uid == *uid).count();
+                if enter > 0 {
+                    rep.count("detached_handlers_of_quitters_entered", 1);
+                    if done != 1 || enter != 1 {
+                        rep.violate(
+                            "C16:tls:detached-handler-not-completed-exactly-once",
+                            json!({"seed": seed, "mode": mode_tag, "uid": uid, "entered": enter, "completed": done}),
+                        );
+                    }
+                }
+            }
+        }
+    }
+    rep
+}
+
 fn main() {
     vmon::panics::install();
     let mut a = std::env::args().skip(1);
@@ -647,6 +954,7 @@ fn main() {
         "c09-tls" => run_c09(seed, if quick { 60 } else { 3000 }),
         "c20-tls" => run_c20(seed, if quick { 60 } else { 3000 }),
         "c17-tls" => run_c17(seed, if quick { 30 } else { 800 }),
+        "c16-tls" => run_c16(seed, if quick { 60 } else { 2500 }),
         _ => {
             eprintln!("usage: vmon_tls c18-tls|c09-tls|c20-tls|c17-tls --seed N --tier T --out F");
             std::process::exit(2)
